@@ -21,6 +21,8 @@ and for the unchanged code it is contradicted by the confirmed deviations listed
 import Dawgs.Proofs.C01Sound
 import Dawgs.Proofs.C01Frag
 import Dawgs.Proofs.C01S2Sound
+import Dawgs.Proofs.C01ChainSound
+import Dawgs.Proofs.C01Count
 namespace Dawgs.C01.Props
 open Dawgs Dawgs.Sql Dawgs.C01.Proofs
 
@@ -199,6 +201,105 @@ theorem c01_partial_S2 (flipOf : S2.Query → Bool) : C01_bag_for (tr2F flipOf) 
   intro m hm
   obtain ⟨w, hw⟩ := tr2_no_runtime_error flipOf km g q st ps hok h _ hm
   cases hw
+
+/-! ### stage S2c: chains of two or three directed fixed hops — `tr3F flipOf flipCh` = S1 ∪ S2b ∪ S2c -/
+
+/-- `tr3F` answers only inside S1 ∪ S2b ∪ S2c -/
+theorem tr3_some (flipOf : S2.Query → Bool) (flipCh : Ch.Query → Bool) (km : KindMap) (q : Cy.Query) (st : Stmt) (ps : List (String × Val))
+    (h : tr3F flipOf flipCh km q = some (st, ps)) :
+    tr2F flipOf km q = some (st, ps) ∨ (∃ s : Ch.Query, ofCyChain q = some s ∧ s.toCy = q ∧ s.trWith km (flipCh s) = some st ∧ ps = []) := by
+  unfold tr3F at h
+  cases h1 : tr2F flipOf km q with
+  | some r => rw [h1] at h; cases h; exact Or.inl rfl
+  | none =>
+    rw [h1] at h
+    cases ho : ofCyChain q with
+    | none => rw [ho] at h; cases h
+    | some s =>
+      rw [ho] at h
+      simp only [Option.map_eq_some_iff] at h
+      obtain ⟨st', hst, heq⟩ := h
+      cases heq
+      exact Or.inr ⟨s, rfl, ofCyChain_sound q s ho, hst, rfl⟩
+
+/-- `tr_sound_S2c`: a chain MATCH (n0)-[e0]->(n1)-[e1]->(n2)[-[e2]->(n3)] RETURN items (kinds optional, every variable read, no WHERE): for
+every graph with `GraphOK2` and both join orders of the first hop, whenever the emitted statement (frames s0, s1[, s2] with the `!=`
+relationship guards) evaluates, the reference semantics — relationship uniqueness within the MATCH included — yields a result and the
+rows are a permutation of each other -/
+theorem tr_sound_S2c (km : KindMap) (g : Graph) (hok : GraphOK2 km g) (s : Ch.Query) (flip : Bool) (st : Stmt)
+    (h : s.trWith km flip = some st) (t : Table) (ht : Sql.eval (encode km g) st [] = .ok t) :
+    ∃ r, Cy.eval .none g s.toCy = .ok r ∧ AgreeBag km g t r := by
+  obtain ⟨r, names, rows, hr, hsql, hperm⟩ := chain_sound km g hok s flip st h
+  rcases hsql with hsql | ⟨w, hsql⟩
+  · rw [hsql] at ht; cases ht; exact ⟨r, hr, hperm⟩
+  · rw [hsql] at ht; cases ht
+
+/-- THE PROVED PART over all three stages, for every join-order choice -/
+theorem c01_partial_S3 (flipOf : S2.Query → Bool) (flipCh : Ch.Query → Bool) : C01_bag_for (tr3F flipOf flipCh) := by
+  intro km g q st ps hok h
+  rcases tr3_some flipOf flipCh km q st ps h with h2 | ⟨s, _, hq, hst, hps⟩
+  · exact c01_partial_S2 flipOf km g q st ps hok h2
+  · subst hps hq
+    obtain ⟨r, names, rows, hr, hsql, hperm⟩ := chain_sound km g hok s (flipCh s) st hst
+    refine ⟨fun t ht => ?_, fun m hm => ?_⟩
+    · rcases hsql with hsql | ⟨w, hsql⟩
+      · rw [hsql] at ht; cases ht; exact ⟨r, hr, hperm⟩
+      · rw [hsql] at ht; cases ht
+    · rcases hsql with hsql | ⟨w, hsql⟩
+      · rw [hsql] at hm; cases hm
+      · rw [hsql] at hm; cases hm
+
+theorem ofCyChain_sound (q : Cy.Query) (s : Ch.Query) (h : ofCyChain q = some s) : s.toCy = q := Proofs.ofCyChain_sound q s h
+
+/-! ### stage S1c: the count aggregate over one node pattern — `tr4F flipOf flipCh fast` = S1 ∪ S2b ∪ S2c ∪ S1c -/
+
+/-- `tr4F` answers only inside S1 ∪ S2b ∪ S2c ∪ S1c -/
+theorem tr4_some (flipOf : S2.Query → Bool) (flipCh : Ch.Query → Bool) (fast : Bool) (km : KindMap) (q : Cy.Query) (st : Stmt) (ps : List (String × Val))
+    (h : tr4F flipOf flipCh fast km q = some (st, ps)) :
+    tr3F flipOf flipCh km q = some (st, ps) ∨ (∃ s : S1c.Query, ofCyCount1 q = some s ∧ s.toCy = q ∧ s.trWith km fast = some st ∧ ps = []) := by
+  unfold tr4F at h
+  cases h1 : tr3F flipOf flipCh km q with
+  | some r => rw [h1] at h; cases h; exact Or.inl rfl
+  | none =>
+    rw [h1] at h
+    cases ho : ofCyCount1 q with
+    | none => rw [ho] at h; cases h
+    | some s =>
+      rw [ho] at h
+      simp only [Option.map_eq_some_iff] at h
+      obtain ⟨st', hst, heq⟩ := h
+      cases heq
+      exact Or.inr ⟨s, rfl, ofCyCount1_sound q s ho, hst, rfl⟩
+
+/-- `tr_sound_S1c`: MATCH (n[:K…]) [WHERE p] RETURN count(n) [AS c] — for every graph with `GraphOK` and BOTH statement shapes (count-store
+fast path `select count(*)::int8 from node n0 [where kinds]` when there is no user predicate and the optimiser is on; otherwise the node
+frame and `select count(s0.n0)::int8 from s0`): whenever the statement evaluates, the reference semantics yields the same single row, the
+number of matching nodes -/
+theorem tr_sound_S1c (km : KindMap) (g : Graph) (hok : GraphOK km g) (s : S1c.Query) (fast : Bool) (st : Stmt)
+    (h : s.trWith km fast = some st) (t : Table) (ht : Sql.eval (encode km g) st [] = .ok t) :
+    ∃ r, Cy.eval .none g s.toCy = .ok r ∧ Agree km g t r := by
+  obtain ⟨r, names, rows, hr, hsql, hrows⟩ := count_sound km g hok s fast st h
+  rcases hsql with hsql | ⟨w, hsql⟩
+  · rw [hsql] at ht; cases ht; exact ⟨r, hr, hrows⟩
+  · rw [hsql] at ht; cases ht
+
+/-- THE PROVED PART over all four stages, for every join-order choice and with the fast path on or off -/
+theorem c01_partial_S4 (flipOf : S2.Query → Bool) (flipCh : Ch.Query → Bool) (fast : Bool) : C01_bag_for (tr4F flipOf flipCh fast) := by
+  intro km g q st ps hok h
+  rcases tr4_some flipOf flipCh fast km q st ps h with h3 | ⟨s, _, hq, hst, hps⟩
+  · exact c01_partial_S3 flipOf flipCh km g q st ps hok h3
+  · subst hps hq
+    obtain ⟨r, names, rows, hr, hsql, hrows⟩ := count_sound km g hok.toGraphOK s fast st hst
+    refine ⟨fun t ht => ?_, fun m hm => ?_⟩
+    · rcases hsql with hsql | ⟨w, hsql⟩
+      · rw [hsql] at ht; cases ht
+        exact ⟨r, hr, by unfold AgreeBag; rw [hrows]⟩
+      · rw [hsql] at ht; cases ht
+    · rcases hsql with hsql | ⟨w, hsql⟩
+      · rw [hsql] at hm; cases hm
+      · rw [hsql] at hm; cases hm
+
+theorem ofCyCount1_sound (q : Cy.Query) (s : S1c.Query) (h : ofCyCount1 q = some s) : s.toCy = q := Proofs.ofCyCount1_sound q s h
 
 theorem ofCy2_sound (q : Cy.Query) (s : S2.Query) (h : ofCy2 q = some s) : s.toCy = q := Proofs.ofCy2_sound q s h
 
